@@ -52,6 +52,27 @@ def strings(seed, n):
     return strs
 
 
+SMALL = "He2.0()[]{}+-@ n"
+
+
+def all_strings(n, alphabet=SMALL):
+    """every string of length <= n over the alphabet"""
+    out = [""]
+    layer = [""]
+    for _ in range(n):
+        layer = [s + c for s in layer for c in alphabet]
+        out += layer
+    return out
+
+
+def compare_sharded(strs, shards=16):
+    from concurrent.futures import ThreadPoolExecutor
+    parts = [strs[i::shards] for i in range(shards)]
+    with ThreadPoolExecutor(max_workers=shards) as ex:
+        res = list(ex.map(compare, [p for p in parts if p]))
+    return [r for r, b in res], [x for r, b in res for x in b]
+
+
 def compare(strs):
     """-> (TLCResult, [(string, python tokens, spec tokens)]) ; raises tlc.TLCError if TLC itself failed."""
     d = tempfile.mkdtemp(prefix="ptv-lex-")
@@ -74,10 +95,12 @@ def compare(strs):
 
 def main():
     seed = int(os.environ.get("VERIF_SEED", "0"))
-    r, bad = compare(strings(seed, 6000))
+    n = int(sys.argv[1]) if len(sys.argv) > 1 else 4
+    strs = strings(seed, 6000) + all_strings(n)        # seeded strings + every string of length <= n over a 16-character alphabet
+    rs, bad = compare_sharded(strs)
     for s, a, b in bad[:10]:
         print("LEX MISMATCH %r\n  harness %s\n  PTLex   %s" % (s, a, b))
-    print("lextest: %d strings, %d disagreements" % (6000 + len(BASE), len(bad)))
+    print("lextest: %d strings (all of length <= %d over %r included), %d disagreements" % (len(strs), n, SMALL, len(bad)))
     return 1 if bad else 0
 
 
